@@ -5,7 +5,7 @@ MODE = "src"
 EXPLANATION = ("For each length L up to the bound all 256^L byte strings are one symbolic input; the per-byte branches of the codec are "
                "if-converted so each length is a single path whose obligations z3 discharges position by position.")
 BOUNDS = {"quick": "every byte string of every length 0..24 and of the lengths 31..33, 63..65, 127, 128 (size-threshold boundaries) (both length parities, both position parities, all 256 byte values at every position)",
-          "thorough": "every byte string of every length 0..128"}
+          "thorough": "every byte string of every length 0..128 and of the lengths 255, 256, 257"}
 OUTSIDE = "byte strings longer than the bound"
 ASSUMPTIONS = ["bytearray cells are integers 0..255 (enforced on every store, as CPython does)"]
 
@@ -15,7 +15,7 @@ def jobs(tier):
 
 
 def _jobs(tier):
-    lens = (list(range(0, 25)) + [31, 32, 33, 63, 64, 65, 127, 128]) if tier == "quick" else list(range(0, 129))
+    lens = (list(range(0, 25)) + [31, 32, 33, 63, 64, 65, 127, 128]) if tier == "quick" else (list(range(0, 129)) + [255, 256, 257])
     js = []
     for L in lens:
         exp = [] if L == 0 else None
